@@ -34,6 +34,8 @@ func genC15(r *sim.Rand, tier string) *sim.Case {
 	c := &sim.Case{Cfg: map[string]int64{
 		"rewrite_threshold": r.Pick64(256, 512, 1024, 4096, 8192, 0),
 		"manifest_sync":     int64(r.Intn(2)),
+		// 1 run in 3 ends with a failed rewrite (injected I/O error while the pointer file is switched) followed by more edits
+		"io_fail": int64(r.Intn(3) / 2),
 	}}
 	n := 4 + r.Intn(40)
 	if c.Cfg["rewrite_threshold"] >= 4096 || c.Cfg["rewrite_threshold"] == 0 {
@@ -560,11 +562,93 @@ func execC15(t *testing.T, c *sim.Case) *sim.Result {
 		}
 	}
 	runBatch()
+	if c.CfgInt("io_fail", 0) == 1 && w.m != nil {
+		w.ioFailEpilogue()
+	}
 	if b, err := os.ReadFile(filepath.Join(dir, "CURRENT")); err == nil && strings.TrimSpace(string(b)) != "MANIFEST-000001" {
 		res.Probes["runs_with_rewrite"]++
 	}
 	res.Nontrivial = res.Faults["crash_images"] > 0 && w.acked > 0
 	return res
+}
+
+// ioFailEpilogue: an explicit rewrite meets one injected I/O error on a step of the pointer switch (the CURRENT
+// temporary file or its rename). The rewrite may fail; the manifest stays usable: every later edit that returns
+// success is in memory and must be in a reload (copy of the directory, and clean Close + Open). The shadow manager is
+// not consulted here (whether the failed call counts is the implementation's choice): the oracle is the property's own
+// "reloaded state equals the in-memory state".
+func (w *c15World) ioFailEpilogue() {
+	res := w.res
+	w.fs.BeforeMutation = nil // crash images inside these calls are judged against the shadow, which is not kept here
+	which := (w.c.Seed + uint64(w.c.Run)) % 2
+	fired := false
+	w.fs.Fail = func(ev sim.FSEvent) error {
+		if fired || !strings.Contains(ev.Path, "CURRENT") {
+			return nil
+		}
+		if (which == 0 && ev.Op == "rename") || (which == 1 && ev.Op != "rename") {
+			fired = true
+			return errors.New("verif: injected disk error")
+		}
+		return nil
+	}
+	w.callKind = "rewrite_with_disk_error"
+	var err error
+	if perr := guard(func() { err = w.m.Rewrite() }); perr != nil {
+		res.Violate(w.step, "sut_crash", map[string]string{"after": "injected_disk_error"}, "Rewrite panicked on an injected disk error: %v", perr)
+		return
+	}
+	w.fs.Fail = nil
+	res.Trace.Add("Rewrite(disk error fired=%v) failed=%v", fired, err != nil)
+	if !fired {
+		return
+	}
+	res.Faults["disk_error_in_pointer_switch"]++
+	if err != nil {
+		res.Probes["rewrite_failed_by_disk_error"]++
+	}
+	w.reloadCheck()
+	n := 0
+	for i, op := range w.c.Ops {
+		if n >= 5 {
+			break
+		}
+		if op.K == "rewrite" || op.K == "reopen" || op.K == "rafttrunc" {
+			continue
+		}
+		es := w.edits(len(w.c.Ops)+i, op)
+		if len(es) == 0 {
+			continue
+		}
+		n++
+		w.step = len(w.c.Ops) + i
+		w.callKind = "edit_after_failed_rewrite"
+		var eerr error
+		if perr := guard(func() { eerr = w.m.LogEdits(es...) }); perr != nil {
+			eerr = perr
+		}
+		res.Trace.Add("LogEdits after disk error err=%s", errS(eerr))
+		if eerr != nil {
+			res.Violate(w.step, "edit_error", map[string]string{"after": "injected_disk_error"}, "LogEdits after a failed rewrite: %v", eerr)
+			return
+		}
+		w.reloadCheck()
+	}
+	live := canon(w.m.Current(), false)
+	if err := w.m.Close(); err != nil {
+		res.Violate(w.step, "close_error", map[string]string{"after": "injected_disk_error"}, "Close: %v", err)
+	}
+	w.m = nil
+	m, err := manifest.Open(w.dir, w.fs)
+	if err != nil {
+		res.Violate(w.step, "reload_open_error", map[string]string{"after": "injected_disk_error"}, "Open after clean Close: %v", err)
+		return
+	}
+	w.m = m
+	res.Checks++
+	if sec := diffCanon(canon(m.Current(), false), live); sec != "" {
+		res.Violate(w.step, "reload_mismatch", map[string]string{"field": sec, "after": "injected_disk_error"}, "clean Close/Open after a failed rewrite changed %s: %s", sec, firstDiffLine(canon(m.Current(), false)[sec], live[sec]))
+	}
 }
 
 // manifestFile returns the path and size of the manifest file CURRENT names.
